@@ -425,10 +425,129 @@ fn command_header(gv: &str, prefix: &str, args: &[String]) -> crate::master::Com
     }
 }
 
+// Group70Var8::write exists (test builds) but has no FreeFormat impl in the library (Group70Var6 has one in
+// master/tests/file/mod.rs): the harness supplies the trivial one so that it goes through
+// HeaderWriter::write_free_format as well
+impl crate::app::format::free_format::FreeFormat for crate::app::file::Group70Var8<'_> {
+    const VARIATION: Variation = Variation::Group70Var8;
+    fn write(&self, cursor: &mut WriteCursor) -> Result<(), crate::app::format::WriteError> {
+        Ok(self.write(cursor)?)
+    }
+}
+
+fn file_status(x: u8) -> crate::app::file::FileStatus {
+    use crate::app::file::FileStatus as S;
+    match x {
+        0 => S::Success,
+        1 => S::PermissionDenied,
+        2 => S::InvalidMode,
+        3 => S::FileNotFound,
+        4 => S::FileLocked,
+        5 => S::TooManyOpen,
+        6 => S::InvalidHandle,
+        7 => S::WriteBlockSize,
+        8 => S::CommLost,
+        9 => S::CannotAbort,
+        16 => S::NotOpened,
+        17 => S::HandleExpired,
+        18 => S::BufferOverrun,
+        19 => S::Fatal,
+        20 => S::BlockSeq,
+        255 => S::Undefined,
+        _ => S::Other(x),
+    }
+}
+
+fn permissions(bits: u16) -> crate::app::file::Permissions {
+    use crate::app::file::{PermissionSet, Permissions};
+    let set = |shift: u16| PermissionSet {
+        execute: bits & (1 << shift) != 0,
+        write: bits & (2 << shift) != 0,
+        read: bits & (4 << shift) != 0,
+    };
+    Permissions { world: set(0), group: set(3), owner: set(6) }
+}
+
+/// `free <v> <fields...>`: the real Group70Var<v> value written with HeaderWriter::write_free_format
+fn free_header(writer: &mut HeaderWriter, a: &[String]) -> Result<(), crate::app::format::WriteError> {
+    use crate::app::file::*;
+    use crate::app::Timestamp;
+    fn num<T: std::str::FromStr>(s: &str) -> T {
+        s.parse().ok().expect("number out of range in free header")
+    }
+    let text = |s: &String| -> String { String::from_utf8(unhex(s)).expect("utf8 in free header") };
+    match a[0].as_str() {
+        "2" => {
+            let (user, pass) = (text(&a[2]), text(&a[3]));
+            writer.write_free_format(&Group70Var2 { auth_key: num(&a[1]), user_name: &user, password: &pass })
+        }
+        "3" => {
+            let name = text(&a[8]);
+            writer.write_free_format(&Group70Var3 {
+                time_of_creation: Timestamp::new(num(&a[1])),
+                permissions: permissions(num(&a[2])),
+                auth_key: num(&a[3]),
+                file_size: num(&a[4]),
+                mode: crate::master::FileMode::new(num(&a[5])),
+                max_block_size: num(&a[6]),
+                request_id: num(&a[7]),
+                file_name: &name,
+            })
+        }
+        "4" => {
+            let t = text(&a[6]);
+            writer.write_free_format(&Group70Var4 {
+                file_handle: num(&a[1]),
+                file_size: num(&a[2]),
+                max_block_size: num(&a[3]),
+                request_id: num(&a[4]),
+                status_code: file_status(num(&a[5])),
+                text: &t,
+            })
+        }
+        "5" => {
+            let data = unhex(&a[3]);
+            writer.write_free_format(&Group70Var5 { file_handle: num(&a[1]), block_number: num(&a[2]), file_data: &data })
+        }
+        "6" => {
+            let t = text(&a[4]);
+            writer.write_free_format(&Group70Var6 {
+                file_handle: num(&a[1]),
+                block_number: num(&a[2]),
+                status_code: file_status(num(&a[3])),
+                text: &t,
+            })
+        }
+        "7" => {
+            let name = text(&a[6]);
+            let ty: u16 = num(&a[1]);
+            writer.write_free_format(&Group70Var7 {
+                file_type: match ty {
+                    0 => FileType::Directory,
+                    1 => FileType::File,
+                    x => FileType::Other(x),
+                },
+                file_size: num(&a[2]),
+                time_of_creation: Timestamp::new(num(&a[3])),
+                permissions: permissions(num(&a[4])),
+                request_id: num(&a[5]),
+                file_name: &name,
+            })
+        }
+        "8" => {
+            let spec = text(&a[1]);
+            writer.write_free_format(&Group70Var8 { file_specification: &spec })
+        }
+        x => panic!("bad free-format variation {}", x),
+    }
+}
+
 /// `encode <seq> <function> <header>...` where headers are separated by `/`:
 ///    all <g> <v> | range8 <g> <v> <start> <stop> | range16 <g> <v> <start> <stop> | count8 <g> <v> <n> |
 ///    count16 <g> <v> <n> | classes <c1><c2><c3><c0> | cmd <gNvM> <8|16> <index>:<hex>... |
-///    one <gNvM> <hex>   (write_count_of_one) | restart (write_clear_restart) | attr <set> <var> <type> <value>
+///    one <gNvM> <hex>   (write_count_of_one) | restart (write_clear_restart) | attr <set> <var> <type> <value> |
+///    free <v> <fields...>   (write_free_format of a Group70Var<v>; numbers decimal in the order of the struct,
+///                            strings / file data as hex of their bytes)
 /// built with the production HeaderWriter through the master's request types where they exist
 fn encode(op: &[String], capacity: usize) -> Result<Vec<u8>, String> {
     use crate::master::{Classes, EventClasses, ReadHeader};
@@ -485,6 +604,12 @@ fn encode(op: &[String], capacity: usize) -> Result<Vec<u8>, String> {
                     Err(AttrWriteError::BadAttribute(_)) => return Err("attr-bad-length".to_string()),
                 }
             }
+            "free" => match free_header(&mut writer, &h[1..]) {
+                Ok(()) => Ok(()),
+                // byte_length / checked_add / the 16-bit length of the object
+                Err(crate::app::format::WriteError::Overflow) => return Err("numeric-overflow".to_string()),
+                Err(crate::app::format::WriteError::WriteError(e)) => Err(e),
+            },
             x => panic!("bad encode header {}", x),
         };
         res.map_err(|e| match e {
